@@ -24,7 +24,7 @@ thread_local! {
 /// Entropy seed handed to the next `getrandom` call made by a worker thread.
 pub static WORKER_ENTROPY: AtomicU64 = AtomicU64::new(0);
 /// Simulated clock (seconds, nanoseconds) seen by workers.
-pub static SIM_CLOCK_S: AtomicI64 = AtomicI64::new(0);
+pub static SIM_CLOCK_S: AtomicI64 = AtomicI64::new(1_700_000_000);
 pub static SIM_CLOCK_NS: AtomicI64 = AtomicI64::new(0);
 /// Simulated pid seen by workers.
 pub static SIM_PID: AtomicI64 = AtomicI64::new(4242);
@@ -33,6 +33,9 @@ pub static SIM_PID: AtomicI64 = AtomicI64::new(4242);
 pub static ENV_SEED: AtomicU64 = AtomicU64::new(0);
 /// Simulated number of CPUs seen by workers (0 = real).
 pub static SIM_NCPU: AtomicU64 = AtomicU64::new(0);
+
+/// names of the environment variables workers asked for (diagnosis; first 64 distinct names)
+pub static ENV_NAMES: std::sync::Mutex<Vec<String>> = std::sync::Mutex::new(Vec::new());
 
 // reach probes
 pub static ENV_READS_WORKER: AtomicU64 = AtomicU64::new(0);
@@ -168,6 +171,12 @@ pub unsafe extern "C" fn getenv(name: *const u8) -> *mut u8 {
         return real;
     }
     ENV_READS_WORKER.fetch_add(1, Ordering::SeqCst);
+    if let Ok(mut names) = ENV_NAMES.try_lock() {
+        let n = String::from_utf8_lossy(bytes).into_owned();
+        if names.len() < 64 && !names.contains(&n) {
+            names.push(n);
+        }
+    }
     let seed = ENV_SEED.load(Ordering::SeqCst);
     if !real.is_null() || seed == 0 {
         return real;
